@@ -103,7 +103,8 @@ def match_finding(findings, v):
     """a violation is explained by an open finding only if it is the same sub-check at
     the same site, inside the finding's region and under its cap."""
     for e in findings:
-        if e.get('subcheck') != v.get('subcheck'):
+        subs = e.get('subcheck')
+        if subs is not None and v.get('subcheck') not in (subs if isinstance(subs, list) else [subs]):
             continue
         if e.get('site') and e.get('site') != v.get('site'):
             continue
